@@ -1,5 +1,6 @@
 """vx — Verus units: build one Verus file from a .vx template + functions extracted from /repo, run verus, map
 diagnostics back to obligations."""
+import threading
 import os, re, json, subprocess, time, shlex
 from rx import (ExtractError, extract_fn, extract_item, name_return, rule_R1_R3, find_loops, find_stmt, norm_ws)
 import r4
@@ -783,6 +784,13 @@ def scan_trusted(u):
             hits.append(f'{u.name}.rs:{ln}: {text.strip()[:160]}')
     return hits
 
+def _write_atomic(path, text):
+    """the generated file is written under a temporary name and renamed into place: two checks that share a unit (and generate the same text from the same tree) never see a half-written file"""
+    tmp = f'{path}.{os.getpid()}.{threading.get_ident()}.tmp'
+    with open(tmp, 'w') as f:
+        f.write(text)
+    os.replace(tmp, path)
+
 def run_unit(name, outdir, rlimit=None, timeout=900, extra=None):
     """returns dict(status ok|refuted|undecided, functions:[...], failures:[...], verified:int, errors:int, smt_ms, log)"""
     t0 = time.time()
@@ -796,8 +804,7 @@ def run_unit(name, outdir, rlimit=None, timeout=900, extra=None):
         return res
     os.makedirs(outdir, exist_ok=True)
     out_rs = os.path.join(outdir, name + '.rs')
-    with open(out_rs, 'w') as f:
-        f.write('\n'.join(u.lines) + '\n')
+    _write_atomic(out_rs, '\n'.join(u.lines) + '\n')
     res['file'] = out_rs
     res['functions'] = u.functions
     res['props'] = u.props
@@ -932,8 +939,7 @@ def run_probe(name, outdir, rlimit=None, timeout=900, extra=None):
             continue
         tag = '__probe' if mode == 'copy' else '__probe2'
         out_rs = os.path.join(outdir, name + tag + '.rs')
-        with open(out_rs, 'w') as f:
-            f.write('\n'.join(u.lines) + '\n')
+        _write_atomic(out_rs, '\n'.join(u.lines) + '\n')
         cmd = ['verus', out_rs, '--output-json', '--error-format=json', '--multiple-errors', '2']
         if rlimit:
             cmd += ['--rlimit', str(rlimit)]
